@@ -99,11 +99,13 @@ def spt_lit(p, name_id, desc_id):
             f"{coq_list([ftensor_lit(m) for m in p.mpos])} {coq_list([ftensor_lit(c) for c in p.caps])})")
 
 
-def build_named(p, name, desc):
-    pt = ptm.SimpleProcessTensor(p.hs_dim, dt=p.dt, transform_in=p.tin, transform_out=p.tout,
+def build_named(p, name, desc, fortran=False):
+    """fortran: tensors and transforms are handed over in Fortran memory order (same values)"""
+    lay = (lambda x: np.asfortranarray(x) if x is not None else None) if fortran else (lambda x: x)
+    pt = ptm.SimpleProcessTensor(p.hs_dim, dt=p.dt, transform_in=lay(p.tin), transform_out=lay(p.tout),
                                  name=name, description=desc)
     for k, m in enumerate(p.mpos):
-        pt.set_mpo_tensor(k, m)
+        pt.set_mpo_tensor(k, lay(m))
     for k, c in enumerate(p.caps):
         pt.set_cap_tensor(k, c)
     return pt
@@ -142,7 +144,7 @@ def run(chk):
             name, desc = rng.choice(NAMES), rng.choice(NAMES)
             nid = 1 + NAMES.index(name)
             did = 10 + NAMES.index(desc)
-            pt = build_named(p, name, desc)
+            pt = build_named(p, name, desc, fortran=(i % 3 == 1))
             # a small pool of file names, re-used with overwrite=True: what is imported must be what was exported LAST
             fn = os.path.join(tmp, f"pt_{i % 3}.hdf5")
             pt.export(fn, overwrite=i >= 3)
